@@ -338,7 +338,7 @@ package sstables
 //@   modifies nothing
 
 //@ func (SuperSSTableReader).Get
-//@   props C08 C01
+//@   props C08 C01 C18
 //@   replay super_reader_model
 //@   requires forall t :: 0 <= t && t < len(s.readers) ==> s.readers[t] != nil
 //@   ensures [newest-table-wins] forall i :: 0 <= i && i < len(s.readers) && thas(s.readers[i], content(key)) &&
@@ -354,7 +354,7 @@ package sstables
 //@     invariant forall j :: i < j && j < len(s.readers) ==> !thas(s.readers[j], content(key)) && tioErr(s.readers[j], content(key)) == nil
 
 //@ func (SuperSSTableReader).Contains
-//@   props C08
+//@   props C08 C18
 //@   requires forall t :: 0 <= t && t < len(s.readers) ==> s.readers[t] != nil
 //@   ensures [some-table-has-it] r1 == nil && r0 ==> exists i :: 0 <= i && i < len(s.readers) && thas(s.readers[i], content(key))
 //@   ensures [no-table-has-it] r1 == nil && !r0 ==> forall i :: 0 <= i && i < len(s.readers) ==> !thas(s.readers[i], content(key))
@@ -425,7 +425,7 @@ package sstables
 //@   modifies nothing
 
 //@ func (*SliceKeyIndex).Get
-//@   props C03
+//@   props C03 C18
 //@   replay table_model
 //@   requires sliceSorted(s.index)
 //@   ensures [found] forall i :: 0 <= i && i < len(s.index) && bcmp(content(s.index[i].key), content(key)) == 0 ==>
@@ -435,7 +435,7 @@ package sstables
 //@   safety on
 
 //@ func (*SliceKeyIndex).Contains
-//@   props C03
+//@   props C03 C18
 //@   requires sliceSorted(s.index)
 //@   ensures [no-false-negative] forall i :: 0 <= i && i < len(s.index) && bcmp(content(s.index[i].key), content(key)) == 0 ==> r0 && r1 == nil
 //@   ensures [no-false-positive] (forall i :: 0 <= i && i < len(s.index) ==> bcmp(content(s.index[i].key), content(key)) != 0) ==> !r0 && r1 == nil
@@ -447,7 +447,7 @@ package sstables
 //@        asType(*SliceKeyIndexIterator, r0).currentIndex == 0 && asType(*SliceKeyIndexIterator, r0).endIndexExcl == len(s.index)
 
 //@ func (*SliceKeyIndex).IteratorStartingAt
-//@   props C03
+//@   props C03 C18
 //@   requires sliceSorted(s.index)
 //@   exit [starts-at-first-not-smaller] r1 == nil && r0 != nil && asType(*SliceKeyIndexIterator, r0).index === s.index &&
 //@        asType(*SliceKeyIndexIterator, r0).endIndexExcl == len(s.index) &&
@@ -455,7 +455,7 @@ package sstables
 //@        (forall i :: 0 <= i && i < len(s.index) ==> (i >= asType(*SliceKeyIndexIterator, r0).currentIndex <==> bcmp(content(s.index[i].key), content(key)) >= 0))
 
 //@ func (*SliceKeyIndex).IteratorBetween
-//@   props C03
+//@   props C03 C18
 //@   replay table_model
 //@   requires sliceSorted(s.index)
 //@   ensures [inverted-bounds-rejected] bcmp(content(keyLower), content(keyHigher)) > 0 <==> r1 != nil
@@ -638,7 +638,7 @@ package sstables
 //@   modifies nothing
 
 //@ func (*SSTableReader).getValueAtOffset
-//@   props C09
+//@   props C09 C18
 //@   replay table_damage
 //@   requires [current-format] reader.opts != nil && reader.v0DataReader == nil && reader.dataReader != nil
 //@   ensures [C09:mismatch-is-an-error] r1 == nil && !skipHashCheck ==> crcOf(content(r0)) == iVal.Checksum || iVal.Checksum == 0
@@ -700,8 +700,9 @@ package sstables
 //@   modifies nothing
 
 //@ func (*SSTableReader).Get
-//@   props C09 C03
+//@   props C09 C03 C18
 //@   replay table_damage
+//@   bounded concurrent_readers_race 8 goroutines x 150 (quick) / 1500 (thorough) random Get / Contains / ScanRange / ScanStartingAt calls on one table reader (default index loader) and random SeekNext / ReadNextAt calls on one memory-mapped reader, for each of the 4 data compression types; every answer is compared with the answer of the same call executed alone; under the Go race detector
 //@   requires [current-format] reader.opts != nil && reader.v0DataReader == nil && reader.dataReader != nil && reader.index != nil
 //@   exit [C03:absent-key-is-NotFound] errIs(callres(SortedKeyIndex.Get, 0, 1), skiplist.NotFound) ==> r1 == NotFound && isnil(r0)
 //@   exit [C03,C09:index-errors-reported] callres(SortedKeyIndex.Get, 0, 1) != nil ==> r1 != nil
